@@ -266,6 +266,8 @@ class ObjCrossRef:
         obj_name(str): A name of the target object.
         cls(TextXClass): The target object class.
         position(int): A position in the input string of this cross-ref.
+        position_end(int): A position in the input string one char behind
+            the text of this cross-ref.
         scope_provider(scope provider): A scope provider for that
             reference (see scoping.md for requirements of a scope provider)
         match_rule_name: the rule name which defines the text format of
@@ -276,11 +278,19 @@ class ObjCrossRef:
     """
 
     def __init__(
-        self, obj_name, cls, position, scope_provider, match_rule_name, parser=None
+        self,
+        obj_name,
+        cls,
+        position,
+        scope_provider,
+        match_rule_name,
+        parser=None,
+        position_end=None,
     ):
         self.obj_name = obj_name
         self.cls = cls
         self.position = position
+        self.position_end = position_end
         self.scope_provider = scope_provider
         self.match_rule_name = match_rule_name
         self.parser = parser
@@ -750,6 +760,7 @@ def parse_tree_to_objgraph(
                         scope_provider=p,
                         match_rule_name=rn,
                         parser=parser,
+                        position_end=node[0].position_end,
                     )
                     parser._crossrefs.append((model_obj, metaattr, value))
                     return model_obj
@@ -780,6 +791,7 @@ def parse_tree_to_objgraph(
                                 scope_provider=p,
                                 match_rule_name=rn,
                                 parser=parser,
+                                position_end=n.position_end,
                             )
 
                             parser._crossrefs.append((obj_attr, metaattr, value))
@@ -1198,7 +1210,7 @@ class ReferenceResolver:
                         RefRulePosition(
                             name=crossref.obj_name,
                             ref_pos_start=crossref.position,
-                            ref_pos_end=crossref.position + len(resolved.name),
+                            ref_pos_end=crossref.position_end,
                             def_file_name=get_model(resolved)._tx_filename,
                             def_pos_start=resolved._tx_position,
                             def_pos_end=resolved._tx_position_end,
